@@ -133,6 +133,89 @@ def run(ctx):
                       c.lineno, sample=norm(c))
 
 
+    # ---- R6.4 (line lengths) ------------------------------------------------------------------------------------------
+    n_len = 0
+    for fi in ctx.repo.all_funcs():
+        if isinstance(fi.node, ast.Lambda):
+            continue
+
+        def line_len_prefix(e, aliases):
+            """prefix P if `e` is the length of line <P>ln: len(lines[<P>ln]) or a local only bound to that."""
+            if isinstance(e, ast.Call) and call_name(e) == 'len' and e.args and isinstance(e.args[0], ast.Subscript) and \
+                    isinstance(e.args[0].slice, ast.Name) and (norm(e.args[0].value) in ('lines', 'ls', 'self.root._lines', 'root._lines', 'self._lines')
+                                                               or norm(e.args[0].value).endswith('lines')):
+                ml = re.match(r'^(.*?)_?ln$', e.args[0].slice.id)
+                return ml.group(1) if ml else None
+            if isinstance(e, ast.Name):
+                return aliases.get(e.id)
+            return None
+
+        aliases, multi = {}, set()
+        for n_ in walk_no_nested(fi.node):
+            if isinstance(n_, (ast.Assign, ast.NamedExpr)):
+                t = n_.targets[0] if isinstance(n_, ast.Assign) else n_.target
+                if isinstance(t, ast.Name) and not re.match(r'^(.*?)_?col(_offset)?$', t.id):
+                    p_ = line_len_prefix(n_.value, {})
+                    if p_ is None or (t.id in aliases and aliases[t.id] != p_):
+                        multi.add(t.id)
+                    else:
+                        aliases[t.id] = p_
+        for k in multi:
+            aliases.pop(k, None)
+
+        def colname(e):
+            if isinstance(e, ast.Name):
+                mc = re.match(r'^(.*?)_?col$', e.id)
+                return mc.group(1) if mc else None
+            return None
+
+        for c in walk_no_nested(fi.node):
+            pairs = []
+            if isinstance(c, ast.BinOp) and isinstance(c.op, (ast.Add, ast.Sub)):
+                pairs = [(c.left, c.right), (c.right, c.left)]
+            elif isinstance(c, ast.Compare) and len(c.ops) == 1:
+                pairs = [(c.left, c.comparators[0]), (c.comparators[0], c.left)]
+            elif isinstance(c, ast.Call) and call_name(c) in ('min', 'max') and len(c.args) == 2:
+                pairs = [(c.args[0], c.args[1]), (c.args[1], c.args[0])]
+            elif isinstance(c, ast.Assign) and len(c.targets) == 1:
+                pairs = [(c.targets[0], c.value)]
+            for a_, b_ in pairs:
+                q = colname(a_)
+                p_ = line_len_prefix(b_, aliases)
+                if q is None or p_ is None:
+                    continue
+                sep = lambda x: x + ('_' if x and not x.endswith('_') else '')
+                if p_ != q:
+                    # the column's own line must exist as a name in this function, otherwise the prefix is not a line family (`space_col`)
+                    # ... and be bound *together with* the column (both parameters, or targets of the same tuple unpack): only then does
+                    # the naming convention pair them (`space_col` computed locally on line `end_ln` is not paired with `space_ln`)
+                    qln, qcol = sep(q) + 'ln', norm(a_)
+                    together = qln in fi.params() and qcol in fi.params()
+                    for x in walk_no_nested(fi.node):
+                        if isinstance(x, ast.Assign) and isinstance(x.targets[0], ast.Tuple):
+                            ids = {e.id for e in x.targets[0].elts if isinstance(e, ast.Name)}
+                            if qln in ids and qcol in ids:
+                                together = True
+                    if not together:
+                        continue
+                    # under a dominating `<P>ln == <Q>ln` test the two lines are the same line
+                    par_ = getattr(fi, '_par64', None) or parent_map(fi.node)
+                    fi._par64 = par_
+                    same = False
+                    for t_, truth in enclosing_tests(fi.node, c, par_):
+                        if isinstance(t_, ast.Compare) and len(t_.ops) == 1 and isinstance(t_.ops[0], ast.Eq if truth else ast.NotEq):
+                            if {norm(t_.left), norm(t_.comparators[0])} == {sep(p_) + 'ln', sep(q) + 'ln'}:
+                                same = True
+                    if same:
+                        continue
+                n_len += 1
+                ctx.check('R6.4', p_ == q, fi.module, fi.qualname, norm(c, 80),
+                          f'column `{norm(a_)}` is combined with the length of line `{p_ + ("_" if p_ and not p_.endswith("_") else "")}ln`: it belongs to '
+                          f'line `{q + ("_" if q and not q.endswith("_") else "")}ln`; wrong as soon as the two lines differ in length', c.lineno,
+                          sample=norm(c, 80))
+                break
+    ctx.extra['line_length_pairings'] = n_len
+
 # ----------------------------------------------------------------------------------------------------------------------
     check_lexicographic(ctx)
 
